@@ -62,10 +62,15 @@ func (e *ExtensionObject) Decode(b []byte) (int, error) {
 		return buf.Pos(), buf.Error()
 	}
 
-	// an empty body is still a value of its type, e.g. a structure without fields
+	// an empty body is still a value of its type if the type has an
+	// empty encoding, e.g. a structure without fields
 	if length == 0 {
 		if e.EncodingMask == ExtensionObjectBinary {
-			e.Value = eotypes.New(e.TypeID.NodeID)
+			if v := eotypes.New(e.TypeID.NodeID); v != nil {
+				if _, err := Decode(nil, v); err == nil {
+					e.Value = v
+				}
+			}
 		}
 		return buf.Pos(), buf.Error()
 	}
